@@ -79,8 +79,8 @@ Proof.
   intros c n c' [HC HD] HOK Hn Hfk. unfold elim_one.
   destruct (in_ios c n) eqn:Hio. { intros E; injection E as <-; left; reflexivity. }
   destruct (outs_of c n) as [|oo [|oo2 orest]] eqn:Ho; try (intros E; injection E as <-; left; reflexivity).
-  destruct (HOK n Hn Hfk Hio) as [inl [tl [Hins Htl]]]. { rewrite Ho. reflexivity. }
-  rewrite Hins.
+  destruct (ins_of c n) as [|[inl|] tl] eqn:Hins; try (intros E; injection E as <-; left; reflexivity).
+  assert (Htl : all_none tl = true). { apply (HOK n Hn Hfk Hio) with (l := inl); auto. rewrite Ho. reflexivity. }
   assert (Hoo : exists out, oo = Some out).
   { destruct oo as [out|]. exists out; auto. exfalso. apply (HD n (or_introl Hn) Hfk 0). rewrite Ho. simpl. lia.
     unfold out_at. rewrite Ho. reflexivity. }
@@ -537,7 +537,7 @@ Proof.
     assert (Hin : In m (map snd (forks c))).
     { apply in_map_iff. exists (name_of c m, m). split; auto. apply (cc_forks [] c HC). auto. }
     specialize (Hok m Hin). rewrite Hio, Hlen in Hok. simpl in Hok.
-    destruct (ins_of c m) as [|[l|] tl]; try discriminate. exists l, tl. auto.
+    intros l tl Hl. rewrite Hl in Hok. exact Hok.
   - apply (dict_values_nodup (forks c) (name_of c)). apply (cc_forks_nd [] c HC).
     intros s m H. apply (cc_forks [] c HC) in H. tauto.
 Qed.
